@@ -100,7 +100,31 @@ fn main() {
     println!("upper: mismatches against Rust std (Unicode {:?}): {}", char::UNICODE_VERSION, upper_bad);
     problems += upper_bad;
     // ---- properties (if present)
-    if let Ok(txt) = std::fs::read_to_string(format!("{}/props_u17.tsv", root)) {
+    let joined: Option<String> = (|| {
+        let sets = std::fs::read_to_string(format!("{}/props_sets_u17.tsv", root)).ok()?;
+        let names = std::fs::read_to_string(format!("{}/props_names_u17.tsv", root)).ok()?;
+        let mut m = std::collections::HashMap::new();
+        for l in sets.lines() {
+            if l.starts_with('#') || l.is_empty() {
+                continue;
+            }
+            let (id, iv) = l.split_once('\t').unwrap_or((l, ""));
+            m.insert(id.to_string(), iv.to_string());
+        }
+        let mut out = String::new();
+        for l in names.lines() {
+            if l.starts_with('#') || l.is_empty() {
+                continue;
+            }
+            let (n, id) = l.split_once('\t')?;
+            out.push_str(n);
+            out.push('\t');
+            out.push_str(m.get(id.trim_start_matches('@'))?);
+            out.push('\n');
+        }
+        Some(out)
+    })();
+    if let Some(txt) = joined {
         let age16: BTreeSet<u32> = {
             let mut s = BTreeSet::new();
             // assigned in Unicode 16 = not Cn according to regex-syntax
